@@ -183,7 +183,8 @@ type session struct {
 	// gelf
 	gelfAddr string
 
-	stopFns []func()
+	stopFns   []func()
+	abandoned bool
 
 	parse    func(c *capture) ([]rec, *failure)
 	match    func(r *rec, ev *evSpec) (site, fail, detail string)
@@ -193,8 +194,53 @@ type session struct {
 }
 
 func (s *session) stop() {
+	if s.abandoned {
+		// a worker may be stuck in the plugin: close the sinks first (that fails its
+		// requests), and do not wait for Stop for ever
+		for i := 0; i < len(s.stopFns)-1; i++ {
+			s.stopFns[i]()
+		}
+		done := make(chan struct{})
+		go func() { s.out.Stop(); close(done) }()
+		select {
+		case <-done:
+		case <-time.After(5 * time.Second):
+		}
+		return
+	}
 	for i := len(s.stopFns) - 1; i >= 0; i-- {
 		s.stopFns[i]()
+	}
+}
+
+// requestCount is the number of requests captured and not yet taken.
+func (s *session) requestCount() int {
+	if s.rec == nil {
+		return 0
+	}
+	s.rec.mu.Lock()
+	defer s.rec.mu.Unlock()
+	return len(s.rec.caps)
+}
+
+// waitBatch waits until n commits were seen. It gives up early (storm=true)
+// when the sink has seen more requests than maxReq: a count-based bound, no
+// wall clock involved in that verdict.
+func (s *session) waitBatch(n, maxReq int, d time.Duration) (committed, storm bool) {
+	deadline := time.After(d)
+	for {
+		if s.ctl.count() >= n {
+			return true, false
+		}
+		if s.requestCount() > maxReq {
+			return false, true
+		}
+		select {
+		case <-s.ctl.note:
+		case <-time.After(10 * time.Millisecond):
+		case <-deadline:
+			return s.ctl.count() >= n, false
+		}
 	}
 }
 
